@@ -361,6 +361,110 @@ pub fn run(ctx: &mut Ctx) {
     exhaustive(ctx);
     random_domains(ctx);
     match_case(ctx);
+    neighbours(ctx);
+}
+
+/// Options must not bleed between rules that share a bucket (and, with optimisation on, a fusion
+/// group): engines built from 2-3 rules whose patterns share their index token and whose option
+/// sets differ; the verdict must be the OR of the per-rule references.
+fn neighbours(ctx: &mut Ctx) {
+    let sub = "neighbours";
+    let cases = ctx.n(30_000, 1_000_000);
+    for idx in 0..cases {
+        if ctx.stop() {
+            break;
+        }
+        if !ctx.begin_case(sub, idx) {
+            continue;
+        }
+        let seed = ctx.seed;
+        let r = guarded(|| {
+            let mut r = Rng::for_case(seed, "c03.neigh", idx);
+            let n = 2 + r.below(2);
+            let use_regex = r.chance(1, 2);
+            let mut rules: Vec<(String, Opts, bool, String)> = vec![]; // line, opts, match_case, matcher text
+            for i in 0..n {
+                let mut o = Opts::default();
+                for _ in 0..r.below(3) {
+                    let t = r.ps(TYPES);
+                    if r.chance(2, 3) {
+                        if !o.pos.contains(&t) && !o.neg.contains(&t) {
+                            o.pos.push(t);
+                        }
+                    } else if !o.neg.contains(&t) && !o.pos.contains(&t) {
+                        o.neg.push(t);
+                    }
+                }
+                o.party = r.ps(&["", "", "3p", "1p"]);
+                o.important = r.chance(1, 6);
+                let mc = use_regex && r.chance(1, 2);
+                let (pat, text) = if use_regex {
+                    (format!("/AdPath\\/r{}[0-9]/", i), format!("AdPath/r{}", i))
+                } else {
+                    (format!("/adpath/p{}.", i), format!("/adpath/p{}.", i))
+                };
+                let mut line = spell_rule(Some(&mut r), Kind::Plain, &o).replacen("/adpath", &pat, 1);
+                if mc {
+                    line.push_str(if line.contains('$') { ",match-case" } else { "$match-case" });
+                }
+                rules.push((line, o, mc, text));
+            }
+            let lines: Vec<String> = rules.iter().map(|x| x.0.clone()).collect();
+            let optimize = r.chance(3, 4);
+            let e = Engine::from_rules_parametrised(&lines, Default::default(), r.chance(1, 2), optimize);
+            let mut out = vec![];
+            for i in 0..n {
+                for upper in [false, true] {
+                    let path = if use_regex {
+                        if upper { format!("AdPath/r{}7", i) } else { format!("adpath/r{}7", i) }
+                    } else if upper {
+                        format!("ADPATH/p{}.gif", i)
+                    } else {
+                        format!("adpath/p{}.gif", i)
+                    };
+                    for (src, third, shost) in [SOURCES[0], SOURCES[3]] {
+                        for rt in ["script", "image", "xhr", "document", "other"] {
+                            let url = format!("https://ads.net/x/{}", path);
+                            let rq = match Request::new(&url, src, rt) {
+                                Ok(rq) => rq,
+                                Err(_) => continue,
+                            };
+                            let d = ReqDesc { rtype: rt, scheme: "https", third, source_host: shost };
+                            let mut want = false;
+                            let mut want_imp = false;
+                            for (j, (_, o, mc, _)) in rules.iter().enumerate() {
+                                // pattern j matches this URL iff it is rule i's URL (distinct digits/letters)
+                                let pattern_hits = j == i && (!*mc || upper == use_regex && upper || (!use_regex));
+                                let pattern_hits = if use_regex { j == i && (!*mc || upper) } else { pattern_hits };
+                                if pattern_hits && reference(Kind::Plain, o, &d) {
+                                    want = true;
+                                    want_imp |= o.important;
+                                }
+                            }
+                            let b = e.check_network_request(&rq);
+                            out.push((b.matched == want && b.important == want_imp, want, json!({"rules": lines, "optimize": optimize, "url": url, "source": src, "type": rt,
+                                "engine_matched": b.matched, "engine_important": b.important, "reference_matched": want, "reference_important": want_imp})));
+                        }
+                    }
+                }
+            }
+            out
+        });
+        match r {
+            Err(sig) => ctx.violation(sub, idx, &format!("C03:{}", sig), json!({})),
+            Ok(v) => {
+                for (ok, want, d) in v {
+                    ctx.eval();
+                    if want {
+                        ctx.nontrivial(fnv(&d.to_string()));
+                    }
+                    if !ok {
+                        ctx.violation(sub, idx, "C03:option-bleeds-between-neighbouring-rules", d);
+                    }
+                }
+            }
+        }
+    }
 }
 
 fn exhaustive(ctx: &mut Ctx) {
